@@ -164,7 +164,8 @@ def generate(g, ex):
         stats = {}
         body = ex.normalize(f['body'])
         n = ex.statements(body)
-        body = ex.apply_rules(body, [('R-misc', r'\bunsafe \{', '{')] + rules, stats)
+        body = ex.apply_rules(body, [('R-misc', r'\bunsafe \{', '{'), ('R-len', r'\b(?:core::)?mem::size_of::<T>\(\)', 'size_of_elem()'),
+                                     ('R-ptr', r'\b(?:core::)?ptr::NonNull::dangling\(\)\.as_(?:mut|ref)\(\)', 'dangling_ref()')] + rules, stats)
         ex.check_supported(vname, body, allow=('const_transmute(',))
         g.emit_fn(Fn(vname, 'src/sequence.rs', f['line'], f['sig'], vsig, body, requires, ensures, stats, n, ['C11']))
 
